@@ -930,6 +930,15 @@ func (c *Compiler) linkRecursiveCode(ctx *compileContext) {
 		curTotalLength := uintptr(recursive.TotalLength()) + 4
 		nextTotalLength := uintptr(totalLength) + 4
 
+		// an interface value met inside the recursive frame pushes its own
+		// frame behind this one: tell the interface ops how long this frame is
+		// (the interpreters add 3; the frame holds totalLength + 4 slots)
+		for c := code; !c.IsEnd(); c = c.IterNext() {
+			if c.Op == OpInterface || c.Op == OpInterfacePtr {
+				c.Length = uint32(totalLength + 1)
+			}
+		}
+
 		compiled := recursive.Jmp
 		compiled.Code = code
 		compiled.CurLen = curTotalLength
